@@ -546,6 +546,13 @@ class Run:
                 self.sig.add(("auto_borrow_granted", len(new_loans)))
                 await self.check_margin_after_grant(name, args, after)
         elif name == "cancel_order":
+            ob = before.orders.get(args["id"])
+            if ob is None:
+                self.v("C05", "cancel_of_unknown_order_succeeded", f"cancel_order({args['id']}) returned for an id no request created")
+                return
+            if not ob.is_open:
+                self.v("C05", "cancel_of_closed_order_succeeded",
+                       f"cancel_order({args['id']}) returned although the order was already closed ({_ostate(ob)})")
             self.cancel_ok[args["id"]] = clock
             self.sig.add(("cancel_ok", before.orders[args["id"]].amount_filled > 0))
             o = after.orders.get(args["id"])
